@@ -33,6 +33,16 @@ def hook(event, a):
         pass
 
 
+def _report_cpu():
+    try:
+        t = os.times()
+        log.write("T\t%.3f\n" % (t.user + t.system))
+    except Exception:
+        pass
+
+
+import atexit  # noqa: E402
+atexit.register(_report_cpu)
 resource.setrlimit(resource.RLIMIT_CPU, (cpu_s, cpu_s + 1))
 resource.setrlimit(resource.RLIMIT_AS, (mem_mb << 20, mem_mb << 20))
 sys.addaudithook(hook)
